@@ -356,6 +356,7 @@ OPNMIDI_EXPORT void opn2_setChipType(struct OPN2_MIDIPlayer *device, int chipTyp
     MidiPlayer *play = GET_MIDI_PLAYER(device);
     assert(play);
     play->m_setup.chipType = chipType;
+    play->realTime_panic(); // No note may keep a reference to the chip channels that get rebuilt
     play->applySetup();
 }
 
